@@ -629,6 +629,15 @@ Definition down_event (st : N) : list act * N :=
   | _ => ([], st)
   end%N.
 
+(* FSM.timeout with restart counter > 0 (TO+): the Configure-Request is retransmitted — rebuilt by
+   BuildConfReq from the configuration as it is now, with a new identifier *)
+Definition to_plus (st : N) : list act * N :=
+  match st with
+  | 6 | 8 => ([Scr], st)
+  | 7 => ([Scr], 6)
+  | _ => ([], st)
+  end%N.
+
 Inductive sev :=
 | EvReq (id : N) (wire : bytes)     (* the subscriber's Configure-Request *)
 | EvAck                             (* the subscriber acknowledges our last Configure-Request verbatim *)
@@ -639,6 +648,7 @@ Inductive sev :=
                                        by rcaEvent/rcnEvent before the handler runs *)
 | EvTermReq (id : N)                (* the subscriber's Terminate-Request *)
 | EvStoppingTimeout                 (* the restart timer expires in Stopping (restart counter 0 after zrc): TO- *)
+| EvTimeout                         (* the restart timer expires while negotiating, restart counter > 0: TO+ *)
 | EvDown                            (* the subscriber renegotiates LCP: LCP leaves Opened, onLCPDown.  PPPoE sends
                                        FSM.Down() to IPCP (and IPv6CP); the LNS owner leaves the NCPs alone *)
 | EvReauth (aaa : option bytes) (orc : oracle).
@@ -678,6 +688,7 @@ Definition sess_step_live (fl : flags) (s : sess) (e : sev) : sess * list act :=
   | EvTermReq id => sess_fsm_only fl s (s_cfg s) (rtr_event (s_fsm s) id)
   | EvStoppingTimeout =>
       sess_fsm_only fl s (s_cfg s) (if N.eqb (s_fsm s) 5 then ([], 3%N) else ([], s_fsm s))
+  | EvTimeout => sess_fsm_only fl s (s_cfg s) (to_plus (s_fsm s))
   | EvDown => sess_down fl s
   | EvReauth aaa orc =>
       match s_owner s with
@@ -717,7 +728,8 @@ Inductive v6ev :=
 | V6Echo (id : N) (oracle : list bytes)                   (* ... proposing exactly what our last request carried *)
 | V6Ack                                                   (* our last request acknowledged verbatim *)
 | V6Nak (wire : bytes)                                    (* Configure-Nak with our last identifier *)
-| V6Rej (wire : bytes).                                   (* Configure-Reject with our last identifier *)
+| V6Rej (wire : bytes)                                    (* Configure-Reject with our last identifier *)
+| V6Timeout.                                              (* restart timer, counter > 0: retransmission *)
 
 Definition v6_next (o : v6obj) (acts : list act) (last : list opt) : list opt :=
   if existsb (fun a => match a with Scr => true | _ => false end) acts then v6_build o else last.
@@ -746,6 +758,7 @@ Definition v6sess_step (s : v6sess) (e : v6ev) : v6sess * list act :=
   | V6Nak w => fin (fold_left v6_learn_opt (parse_lenient w) o) (rcn_event (vs_fsm s) 0)
   | V6Rej w => fin (mkv6obj (vo_local o) (map o_type (parse_lenient w) ++ vo_rej o) (vo_peer o))
                    (rcn_event (vs_fsm s) 0)
+  | V6Timeout => fin o (to_plus (vs_fsm s))
   end.
 Fixpoint v6sess_run (s : v6sess) (es : list v6ev) : v6sess :=
   match es with [] => s | e :: rest => v6sess_run (fst (v6sess_step s e)) rest end.
@@ -769,7 +782,8 @@ Inductive lev :=
 | SLEcho (id : N)                           (* ... carrying exactly the Magic-Number option of our last request *)
 | SLAck                                    (* our last request acknowledged verbatim *)
 | SLNak (wire : bytes)                     (* Configure-Nak with our last identifier *)
-| SLRej (wire : bytes).                    (* Configure-Reject with our last identifier *)
+| SLRej (wire : bytes)                     (* Configure-Reject with our last identifier *)
+| SLTimeout.                               (* restart timer, counter > 0: retransmission *)
 
 (* initPPP *)
 Definition lsess0 (random_magic : N) : lsess :=
@@ -800,6 +814,7 @@ Definition lsess_step (fl : flags) (s : lsess) (e : lev) : lsess * list act :=
   | SLRej w => fin (mklobj (lo_mru o) (lo_magic o) (lo_auth o) (lo_algo o) (lo_want o)
                            (map o_type (parse_lenient w) ++ lo_rej o) (lo_peer o))
                    (rcn_event (ls_fsm s) 0)
+  | SLTimeout => fin o (to_plus (ls_fsm s))
   end.
 Fixpoint lsess_run (fl : flags) (s : lsess) (es : list lev) : lsess :=
   match es with [] => s | e :: rest => lsess_run fl (fst (lsess_step fl s e)) rest end.
